@@ -39,7 +39,10 @@ def readOnlyCallee (k : String) : Bool :=
   || k == "extcall:encoding/json.Marshal"
   || k == "extcall:invoke:reflect.Type.String" || k == "extcall:invoke:reflect.Type.Name"
   || k == "extcall:invoke:reflect.Type.Kind" || k == "extcall:invoke:reflect.Type.Elem"
-  || k == "extcall:invoke:io.Writer.Write" || k == "extcall:fmt.Fprintf"
+
+/-- the debugging printer of the parser writes to the caller's io.Writer: allowed there and nowhere else -/
+def printerCall (e : Effect) : Bool :=
+  e.fn == "(*parser.writeVisitor).Visit" && (e.kind == "extcall:invoke:io.Writer.Write" || e.kind == "extcall:fmt.Fprintf")
 
 /-- memory a call outside the four packages may write: what the call itself allocated, or a decoder made in this function -/
 def privateArg (p : String × String) : Bool :=
@@ -48,7 +51,29 @@ def privateArg (p : String × String) : Bool :=
 /-- [C06, C07] default deny for code outside the four packages: every argument that is not an immutable value and is
     handed to a foreign function, to a method of a foreign interface or to a function value is either memory the call
     itself allocated, or the callee is one of a short list of read-only library functions -/
-theorem extcalls_safe : extCalls.all (fun e => readOnlyCallee e.kind || e.root.all privateArg) = true := by decide
+theorem extcalls_safe : extCalls.all (fun e => readOnlyCallee e.kind || printerCall e || e.root.all privateArg) = true := by decide
+
+/-- packages of the standard library (and decimal128) whose functions keep no state between calls that a caller can
+    observe (trusted; `io` is reached only by the parser's debugging printer) -/
+def statelessPkg (p : String) : Bool :=
+  ["builtin-interface", "encoding/json", "errors", "fmt", "github.com/woodsbury/decimal128", "math", "math/big", "math/bits",
+   "reflect", "slices", "maps", "sort", "strconv", "strings", "bytes", "cmp", "unicode", "unicode/utf16", "unicode/utf8"].contains p
+
+/-- [C06, C07] the library calls into no package that holds observable state (os, time, math/rand, sync, …), whatever
+    the arguments -/
+theorem foreign_packages_stateless :
+    foreignCalls.all (fun c => statelessPkg c.2 || (c.2 == "io" && c.1 == "(*parser.writeVisitor).Visit")) = true := by decide
+
+/-- [C06, C08] every return that can carry a nil error (or hands on the results of another function of the package) is
+    dominated by a call of the parser, of the evaluator or of such a function: no entry point answers without doing the
+    work; MustCompile's panic is guarded by exactly `err != nil` for the parser's error; the parser is given the
+    caller's expression text unchanged -/
+theorem entry_points_do_the_work :
+    (successReturns.all (fun r => !r.2.isEmpty)
+     && (successReturns.filter (·.1 == "jmespath.Search")).all (fun r =>
+          (r.2.contains "parser.Parse" && r.2.contains "evaluator.Evaluate") || r.2.any (fun c => c != "parser.Parse" && c != "evaluator.Evaluate"))
+     && mustCompilePanicCond == "errNotNil:parser.Parse"
+     && parseArgs.all (·.2) && !parseArgs.isEmpty) = true := by decide
 
 /-- sorting functions of the standard library -/
 def isSortCall (k : String) : Bool :=
